@@ -1,1 +1,234 @@
-/- property theorems of C05 (only theorems + non-vacuity examples live here) -/
+/- property theorems of C05 (only theorems + non-vacuity examples live here)
+
+C05: with expiry E for a result (normal expiry for values, error expiry for errors) completed at time u:
+  now-u < E          served, no new load                                      C05_fresh
+  E <= now-u < 2E    served immediately; the first Load creates exactly one   C05_expired_first_load
+                     refresh future (predecessor = the stale one) and job;    C05_expired_while_refreshing
+                     further calls create nothing
+  now-u >= 2E        never handed out again                                   C05_rotted_never_served*
+  the refresh result replaces the stale one                                   C05_refresh_replaces
+  the sweep changes none of these answers                                     C05_sweep_invisible*
+All statements are about the step functions of the LTS `Got.Model.Cache` (the same definitions the driver executes) and
+hold for EVERY state, clock value, completion time and pair of expiries – no reachability assumption is needed except
+the allocation invariant `MapWF` (every stored future id has been allocated) in C05_sweep_invisible_client.
+The literal 2 is the property's constant; the model takes its factor from the regenerated source facts
+(`rotFactor`), so a changed source constant breaks these proofs. -/
+import Got.Lemmas.CacheSweep
+open Got.Model.CacheCore Got.Model.Cache Got.Spec.Cache Got.Lemmas.Cache
+
+/-- the status function, outright: for all clocks, completion times, both expiries -/
+theorem C05_status_table (now u En Ee : Nat) (hasErr resolved : Bool) :
+    status now u hasErr En Ee resolved =
+      if !resolved then .good
+      else if now - u < expiryOf hasErr En Ee then .good
+      else if now - u < 2 * expiryOf hasErr En Ee then .expired
+      else .rotted := by
+  cases resolved
+  · simp [status]
+  · simp [status_cases]
+
+/-- C05 (fresh): while `now - u < E` (E = error expiry for an error result) the status is good for EVERY clock value,
+    completion time and pair of expiries; Load then creates no future and no job and plans
+    fetchIfFutureStatusGood(last); Get2 goes on to fetchIfFutureStatusGood(future).Get2(). -/
+theorem C05_fresh (cfg : Cfg) (s : State) (c : Cid) (k : Key) (ld : Nat) (l : FutId) (r : Res)
+    (hmap : s.map k = some l) (hres : (s.fut l).res = some r)
+    (hage : s.now - (s.fut l).upd < futExpiry cfg r) :
+    statusAt cfg s (some l) = .good ∧
+    (loadCS cfg s c k ld).nfut = s.nfut ∧ (loadCS cfg s c k ld).map = s.map ∧
+    (loadCS cfg s c k ld).chan = s.chan ∧ (loadCS cfg s c k ld).fut = s.fut ∧
+    (loadCS cfg s c k ld).cpc c = .ldUnlock (cfg.shardOf k) none (.fetch l) ∧
+    (∀ c', s.cpc c' = .g2Status (some l) → clStep cfg s c' = some (setPc s c' (.fetch l true))) := by
+  have hst : statusAt cfg s (some l) = .good := by
+    rw [statusAt_resolved cfg s l r hres, status_good_iff]; exact hage
+  refine ⟨hst, ?_, ?_, ?_, ?_, ?_, ?_⟩
+  all_goals first
+    | (simp [loadCS, applyLoad, loadOut, hmap, hst, loadDecide]; done)
+    | (intro c' hc; simp [clStep, hc, hst, get2Decide, g2Next])
+
+example : ∃ s l r, (s : State).map 1 = some l ∧ (s.fut l).res = some r ∧ s.now - (s.fut l).upd < futExpiry exCfg r :=
+  ⟨exResolved 15, 0, ⟨some 7, none⟩, by decide, by decide, by decide⟩
+
+theorem C05_expired_first_load (cfg : Cfg) (s : State) (c : Cid) (k : Key) (ld : Nat) (l : FutId) (r : Res)
+    (hmap : s.map k = some l) (hres : (s.fut l).res = some r)
+    (hE : futExpiry cfg r ≤ s.now - (s.fut l).upd) (h2E : s.now - (s.fut l).upd < 2 * futExpiry cfg r) :
+    let s' := loadCS cfg s c k ld
+    statusAt cfg s (some l) = .expired ∧
+    s'.nfut = s.nfut + 1 ∧
+    s'.map k = some s.nfut ∧
+    s'.fut s.nfut = newLoadFut k (some l) ∧
+    s'.chan = s.chan ∧
+    planOf (s'.cpc c) = some (.ret l) ∧
+    jobOf (s'.cpc c) = some { key := k, fut := s.nfut, ld := ld } := by
+  have hst : statusAt cfg s (some l) = .expired := by
+    rw [statusAt_resolved cfg s l r hres, status_expired_iff]; exact ⟨hE, h2E⟩
+  intro s'
+  refine ⟨hst, ?_, ?_, ?_, ?_, ?_, ?_⟩
+  all_goals (simp only [s']; cases hold : cfg.old <;> simp [loadCS, applyLoad, loadOut, hmap, hst, loadDecide, hold, planOf, jobOf])
+
+example : ∃ s l r, (s : State).map 1 = some l ∧ (s.fut l).res = some r ∧
+    futExpiry exCfg r ≤ s.now - (s.fut l).upd ∧ s.now - (s.fut l).upd < 2 * futExpiry exCfg r :=
+  ⟨exResolved 25, 0, ⟨some 7, none⟩, by decide, by decide, by decide, by decide⟩
+
+theorem C05_expired_while_refreshing (cfg : Cfg) (s : State) (c : Cid) (k : Key) (ld : Nat) (n l : FutId)
+    (hmap : s.map k = some n) (hload : (s.fut n).res = none) :
+    let s' := loadCS cfg s c k ld
+    -- no new future, no job; the plan is fetchIfFutureStatusGood(n)
+    (s'.nfut = s.nfut ∧ s'.map = s.map ∧ s'.chan = s.chan ∧ s'.fut = s.fut ∧
+      s'.cpc c = .ldUnlock (cfg.shardOf k) none (.fetch n)) ∧
+    -- fetchIfFutureStatusGood hands out the stale predecessor l exactly while it is merely expired
+    (∀ c' g, s.cpc c' = .fetchSt n (some l) g →
+      clStep cfg s c' = some (setPc s c'
+        (let tgt := if statusAt cfg s (some l) = .expired then l else n
+         if g then .wait tgt else .ldRet tgt))) ∧
+    (∀ r, (s.fut l).res = some r →
+      (statusAt cfg s (some l) = .expired ↔
+        futExpiry cfg r ≤ s.now - (s.fut l).upd ∧ s.now - (s.fut l).upd < 2 * futExpiry cfg r)) := by
+  have hst : statusAt cfg s (some n) = .good := statusAt_unresolved cfg s n hload
+  intro s'
+  refine ⟨⟨?_, ?_, ?_, ?_, ?_⟩, ?_, ?_⟩
+  · simp [s', loadCS, applyLoad, loadOut, hmap, hst, loadDecide]
+  · simp [s', loadCS, applyLoad, loadOut, hmap, hst, loadDecide]
+  · simp [s', loadCS, applyLoad, loadOut, hmap, hst, loadDecide]
+  · simp [s', loadCS, applyLoad, loadOut, hmap, hst, loadDecide]
+  · simp [s', loadCS, applyLoad, loadOut, hmap, hst, loadDecide]
+  · intro c' g hc
+    simp only [clStep, hc, fetchChoosesPred, fetchTarget]
+    cases hs : statusAt cfg s (some l) <;> simp
+  · intro r hr
+    rw [statusAt_resolved cfg s l r hr, status_expired_iff]; rfl
+
+example : ∃ s n, (s : State).map 1 = some n ∧ (s.fut n).res = none ∧ (s.fut n).pred = some 0 ∧
+    statusAt exCfg s (some 0) = .expired :=
+  ⟨exRefreshing 25, 1, by decide, by decide, by decide, by decide⟩
+-- … and once the stale one is rotted the refresh future itself is handed out
+example : statusAt exCfg (exRefreshing 30) (some 0) = .rotted := by decide
+
+/-- Load never plans to hand out a rotted future -/
+theorem C05_rotted_never_served_load (cfg : Cfg) (s : State) (c : Cid) (k : Key) (ld : Nat) :
+    let s' := loadCS cfg s c k ld
+    ∃ p, planOf (s'.cpc c) = some p ∧
+      match p with
+      | .ret f => (f = s.nfut ∧ s'.nfut = s.nfut + 1 ∧ (s'.fut f).res = none ∧ s'.map k = some f)
+                  ∨ (s.map k = some f ∧ statusAt cfg s (some f) = .expired)
+      | .fetch f => s.map k = some f ∧ statusAt cfg s (some f) = .good := by
+  intro s'
+  cases hmap : s.map k with
+  | none =>
+    cases hold : cfg.old <;>
+      simp [s', loadCS, applyLoad, loadOut, hmap, statusAt_none, loadDecide, planOf, hold, newLoadFut]
+  | some l =>
+    cases hst : statusAt cfg s (some l) with
+    | empty => exact absurd hst (by simp [statusAt_empty_iff])
+    | good => simp [s', loadCS, applyLoad, loadOut, hmap, hst, loadDecide, planOf]
+    | expired => cases hold : cfg.old <;> simp [s', loadCS, applyLoad, loadOut, hmap, hst, loadDecide, planOf, hold]
+    | rotted => cases hold : cfg.old <;> simp [s', loadCS, applyLoad, loadOut, hmap, hst, loadDecide, planOf, hold, newLoadFut]
+
+/-- fetchIfFutureStatusGood returns its argument or a predecessor that is merely expired -/
+theorem C05_rotted_never_served_fetch (cfg : Cfg) (s : State) (c : Cid) (f : FutId) (p : Option FutId) (g : Bool)
+    (hc : s.cpc c = .fetchSt f p g) :
+    ∃ tgt, clStep cfg s c = some (setPc s c (if g then .wait tgt else .ldRet tgt)) ∧
+      (tgt = f ∨ (p = some tgt ∧ statusAt cfg s (some tgt) = .expired)) := by
+  cases p with
+  | none => exact ⟨f, by simp [clStep, hc, fetchTarget], Or.inl rfl⟩
+  | some q =>
+    by_cases h : statusAt cfg s (some q) = .expired
+    · exact ⟨q, by simp [clStep, hc, fetchChoosesPred, fetchTarget, h], Or.inr ⟨rfl, h⟩⟩
+    · refine ⟨f, ?_, Or.inl rfl⟩
+      simp only [clStep, hc, fetchChoosesPred, fetchTarget]
+      cases hs : statusAt cfg s (some q) <;> simp_all
+
+/-- Get2 waits on a good future (via fetchIfFutureStatusGood), returns an expired one, and answers (nil, nil)
+    for an absent or rotted entry -/
+theorem C05_rotted_never_served_get2 (cfg : Cfg) (s : State) (c : Cid) (o : Option FutId)
+    (hc : s.cpc c = .g2Status o) :
+    ∃ pc, clStep cfg s c = some (setPc s c pc) ∧
+      match statusAt cfg s o with
+      | .good => ∃ f, o = some f ∧ pc = .fetch f true
+      | .expired => ∃ f, o = some f ∧ pc = .wait f
+      | .rotted => pc = .retNil
+      | .empty => pc = .retNil := by
+  cases o with
+  | none => exact ⟨.retNil, by simp [clStep, hc, statusAt_none, get2Decide, g2Next], by simp [statusAt_none]⟩
+  | some f =>
+    cases hst : statusAt cfg s (some f) with
+    | empty => exact absurd hst (by simp [statusAt_empty_iff])
+    | good => exact ⟨.fetch f true, by simp [clStep, hc, hst, get2Decide, g2Next], ⟨f, rfl, rfl⟩⟩
+    | expired => exact ⟨.wait f, by simp [clStep, hc, hst, get2Decide, g2Next], ⟨f, rfl, rfl⟩⟩
+    | rotted => exact ⟨.retNil, by simp [clStep, hc, hst, get2Decide, g2Next], rfl⟩
+
+/-- whatever is chosen by the three decisions above is servable: a resolved result of status good / expired is
+    younger than 2E, and a result with `now - u ≥ 2E` has status rotted (for all clocks and both expiries) -/
+theorem C05_rotted_never_served (cfg : Cfg) (s : State) (f : FutId) :
+    (statusAt cfg s (some f) = .good ∨ statusAt cfg s (some f) = .expired → Servable cfg s f) ∧
+    (∀ r, (s.fut f).res = some r → 2 * futExpiry cfg r ≤ s.now - (s.fut f).upd → statusAt cfg s (some f) = .rotted) ∧
+    (statusAt cfg s (some f) = .rotted → ¬ Servable cfg s f) := by
+  refine ⟨servable_of_status cfg s f, ?_, not_servable_of_rotted cfg s f⟩
+  intro r hr h
+  rw [statusAt_resolved cfg s f r hr, status_rotted_iff]; exact h
+
+/-- the refresh replaces the stale result: (1) the worker's publication step stores the pair and `updateTime := now`
+    into the refresh future `j.fut` without touching the map, after which its status is good (fresh, E > 0);
+    (2) for a fresh future whose predecessor has been cleared, Get2 and fetchIfFutureStatusGood hand out that future
+    itself – no longer the stale predecessor. -/
+theorem C05_refresh_replaces (cfg : Cfg) :
+    (∀ (s : State) (w : Wid) (j : Job) (r : Res), s.wpc w = .publish j r → 0 < futExpiry cfg r →
+      ∃ s1, wkStep cfg s w = some s1 ∧ (s1.fut j.fut).res = some r ∧ (s1.fut j.fut).upd = s.now ∧ s1.now = s.now ∧
+        s1.map = s.map ∧ s1.wpc w = .clearPred j ∧ statusAt cfg s1 (some j.fut) = .good) ∧
+    (∀ (s : State) (w : Wid) (j : Job), s.wpc w = .clearPred j →
+      ∃ s2, wkStep cfg s w = some s2 ∧ (s2.fut j.fut).pred = none ∧ (s2.fut j.fut).res = (s.fut j.fut).res ∧
+        (s2.fut j.fut).upd = (s.fut j.fut).upd ∧ s2.now = s.now ∧ s2.map = s.map) ∧
+    (∀ (s : State) (c : Cid) (n : FutId) (g : Bool), (s.fut n).pred = none →
+      (s.cpc c = .fetch n g → clStep cfg s c = some (setPc s c (.fetchSt n none g))) ∧
+      (s.cpc c = .fetchSt n none g → clStep cfg s c = some (setPc s c (if g then .wait n else .ldRet n)))) ∧
+    (∀ (s : State) (c : Cid) (n : FutId), statusAt cfg s (some n) = .good → s.cpc c = .g2Status (some n) →
+      clStep cfg s c = some (setPc s c (.fetch n true))) := by
+  refine ⟨?_, ?_, ?_, ?_⟩
+  · intro s w j r hw hE
+    refine ⟨_, by simp only [wkStep, hw]; rfl, ?_, ?_, ?_, ?_, ?_, ?_⟩
+    · simp [setWpc]
+    · simp [setWpc]
+    · simp [setWpc]
+    · simp [setWpc]
+    · simp [setWpc]
+    · rw [statusAt_resolved (r := r)]
+      · rw [status_good_iff]; simp [setWpc]; exact hE
+      · simp [setWpc]
+  · intro s w j hw
+    refine ⟨_, by simp only [wkStep, hw]; rfl, ?_, ?_, ?_, ?_, ?_⟩ <;> simp [setWpc]
+  · intro s c n g hp
+    constructor
+    · intro hc; simp [clStep, hc, hp]
+    · intro hc; simp [clStep, hc, fetchTarget]
+  · intro s c n hst hc
+    simp [clStep, hc, hst, get2Decide, g2Next]
+
+example : ∃ s f r, ((s : State).fut f).res = some r ∧ 2 * futExpiry exCfg r ≤ s.now - (s.fut f).upd :=
+  ⟨exResolved 30, 0, ⟨some 7, none⟩, by decide, by decide⟩
+
+/-- the sweep is invisible (1): client steps from ≈-related states are both disabled, or both enabled with
+    ≈-related results (≈ ignores map entries that are rotted); in particular every value returned is the same
+    (C05_sweep_invisible_outputs). -/
+theorem C05_sweep_invisible_client (cfg : Cfg) (s t : State) (h : SweepEq cfg s t) (ws : MapWF s) (wt : MapWF t)
+    (c : Cid) : OptRel (SweepEq cfg) (clStep cfg s c) (clStep cfg t c) :=
+  sweepEq_clStep cfg s t h ws wt c
+
+theorem C05_sweep_invisible_outputs (cfg : Cfg) (s t : State) (h : SweepEq cfg s t) (c : Cid) (o : Out) :
+    s.cpc c = .done o ↔ t.cpc c = .done o :=
+  sweepEq_out cfg s t h c o
+
+/-- the sweep is invisible (2): removing the rotted entries of a shard yields a ≈-related state -/
+theorem C05_sweep_invisible_sweep (cfg : Cfg) (s : State) (i : Nat) :
+    SweepEq cfg { s with map := sweepShard cfg s i } s :=
+  sweepEq_sweepShard cfg s i
+
+/-- the sweep is invisible (3): rottedness is stable – the clock only grows – so ≈ survives the passage of time -/
+theorem C05_sweep_invisible_time (cfg : Cfg) (s t : State) (h : SweepEq cfg s t) (d : Nat) :
+    SweepEq cfg { s with now := s.now + d } { t with now := t.now + d } :=
+  sweepEq_delay cfg s t h d
+
+theorem C05_rotted_stable (now now' u En Ee : Nat) (e r : Bool) (hle : now ≤ now')
+    (h : status now u e En Ee r = .rotted) : status now' u e En Ee r = .rotted :=
+  status_rotted_mono now now' u En Ee e r hle h
+
+-- non-vacuity: the sweep really removes something in `exResolved 30` (the entry is rotted) and the two states differ
+example : (sweepShard exCfg (exResolved 30) 0) 1 = none ∧ (exResolved 30).map 1 = some 0 := by decide
